@@ -1126,38 +1126,32 @@ def check_grid_data_order(ctx, rid):
     f = prog.funcs.get("iodata.formats.chgcar._load_vasp_grid")
     if f is None:
         raise AnalysisError("chgcar._load_vasp_grid not found")
-    loop = None
-    for st in f.body:
-        if isinstance(st, ast.For) and any(isinstance(x, ast.For) for x in ast.walk(st) if x is not st) and any(isinstance(x, ast.Call) and isinstance(x.func, ast.Attribute) and x.func.attr == "pop" for x in ast.walk(st)):
-            loop = st
-    if loop is None:
-        raise AnalysisError("chgcar._load_vasp_grid: the loop that fills the grid was not found")
-    tgt = next((x for x in ast.walk(loop) if isinstance(x, ast.Assign) and isinstance(x.targets[0], ast.Subscript) and isinstance(x.targets[0].value, ast.Name)), None)
-    wvar = next((x.func.value.id for x in ast.walk(loop) if isinstance(x, ast.Call) and isinstance(x.func, ast.Attribute) and x.func.attr == "pop" and isinstance(x.func.value, ast.Name)), None)
-    svar = next((x.value.id for x in ast.walk(loop.iter) if isinstance(x, ast.Subscript) and isinstance(x.value, ast.Name)), None)
-    if tgt is None or wvar is None or svar is None:
-        raise AnalysisError("chgcar._load_vasp_grid: grid loop has an unexpected shape")
-    gvar = tgt.targets[0].value.id
+    # the whole grid reader on a model file: header (orthogonal 2 x 3 x 4 angstrom cell, one atom), the shape line, 24
+    # numbers five per line -- however the fill loop is written, the k-th number belongs to the grid point with x fastest
     toks = [f"{0.5 + k:.5E}" for k in range(24)]
-    lines = [" ".join(toks[k:k + 5]) + "\n" for k in range(0, 24, 5)]
+    lines = ["model\n", "   1.0\n", " 2.0 0.0 0.0\n", " 0.0 3.0 0.0\n", " 0.0 0.0 4.0\n", " H\n", " 1\n", "Direct\n", " 0.0 0.0 0.0\n", "\n", " 2 3 4\n"]
+    lines += [" ".join(toks[k : k + 5]) + "\n" for k in range(0, 24, 5)]
     lit = Rec(licls, filename="F", fh=iter(lines), lineno=0, stack=[])
-    local = {f.posparams[0]: lit, svar: np.array(shape), wvar: [], gvar: np.zeros(shape)}
     try:
-        ev = AccessorEval(prog, licls, limit=8000)
+        ev = AccessorEval(prog, licls, limit=20000)
         ev.module = f.module
-        ev._block([loop], local)
+        ev._globals = {("iodata.utils", "angstrom"): 1.0}  # the unit is R22's business
+        res = ev.run_free(f, [lit], {})
     except Raised as exc:
-        ctx.violate(rid, f"VASP grid: the fill loop raises {exc.args[0]} on 24 numbers for a 2 x 3 x 4 grid", f, loop, construct="vasp grid raises")
+        ctx.violate(rid, f"VASP grid: the grid reader raises {exc.args[0]} on a model file with 24 numbers for a 2 x 3 x 4 grid", f, f.node, construct="vasp grid raises")
         return
     except NotSymbolic as exc:
-        raise AnalysisError(f"chgcar grid loop is outside the evaluation whitelist: {exc}") from exc
-    g = np.asarray(local[gvar], dtype=float)
+        raise AnalysisError(f"chgcar._load_vasp_grid is outside the evaluation whitelist: {exc}") from exc
+    cube = res.get("cube") if isinstance(res, dict) else None
+    g = np.asarray(cube.fields.get("data"), dtype=float) if isinstance(cube, Rec) else None
     want = np.array([[[0.5 + (i0 + 2 * (i1 + 3 * i2)) for i2 in range(4)] for i1 in range(3)] for i0 in range(2)])
-    if np.abs(g - want).max() > 1e-9:
+    if g is None or g.shape != want.shape:
+        ctx.violate(rid, f"VASP grid: the shape line `2 3 4` gives a data array of shape {None if g is None else g.shape}", f, f.node, construct="vasp grid shape")
+    elif np.abs(g - want).max() > 1e-9:
         idx = tuple(int(v) for v in np.argwhere(np.abs(g - want) > 1e-9)[0])
-        ctx.violate(rid, f"VASP grid: grid point {idx} receives the number at position {int(round(g[idx] - 0.5))} of the file, VASP lists x fastest: position {int(round(want[idx] - 0.5))}", f, loop, construct="vasp grid order")
+        ctx.violate(rid, f"VASP grid: grid point {idx} receives the number at position {int(round(g[idx] - 0.5))} of the file, VASP lists x fastest: position {int(round(want[idx] - 0.5))}", f, f.node, construct="vasp grid order")
     else:
-        ctx.ok(rid, "VASP grid: 24 numbers (five per line) fill the 2 x 3 x 4 grid with x running fastest", f"{f.module.relpath}:{loop.lineno}")
+        ctx.ok(rid, "VASP grid: 24 numbers (five per line) fill the 2 x 3 x 4 grid with x running fastest", f"{f.module.relpath}:{f.lineno}")
 
 
 def check_wfn_build_obasis(ctx, rid):
